@@ -18,22 +18,12 @@ import (
 	"strconv"
 	"strings"
 
-	"github.com/DemoHn/Zn/pkg/common"
 	"github.com/DemoHn/Zn/pkg/exec"
-	r "github.com/DemoHn/Zn/pkg/runtime"
 	"github.com/DemoHn/Zn/pkg/server"
 )
 
 func init() {
 	register("httpreq", opHTTPReq)
-}
-
-// httpLib: the two HTTP classes of pkg/common under a library name of the harness' own. Their home, stdlib/http, does
-// not compile; without a library a program cannot construct the HTTP响应 object that sendHTTPResponse unpacks.
-func httpLib() *r.Library {
-	return r.NewLibrary("@验证HTTP").
-		RegisterClass("HTTP请求", common.CLASS_HttpRequest).
-		RegisterClass("HTTP响应", common.CLASS_HttpResponse)
 }
 
 func opHTTPReq(f []string) string {
@@ -57,7 +47,7 @@ func opHTTPReq(f []string) string {
 	entry := filepath.Join(dir, "入口.zn")
 	os.WriteFile(entry, []byte(string(src)), 0o644)
 
-	interp := exec.NewInterpreter("verif").SetExternalLibs(append(stdLibs(), httpLib()))
+	interp := exec.NewInterpreter("verif").SetExternalLibs(stdLibs())
 	handler := server.NewZnHttpHandler(interp, entry)
 	set := newOutcomeSet()
 	for i := 0; i < n; i++ {
